@@ -104,6 +104,7 @@ func runMeta(r *run) error {
 			defer mu.Unlock()
 			args := j.sp.Args
 			r.count("meta/" + j.sp.Arr + "/" + res.Outcome)
+			r.emit("noop", j.sp.ID, []string{strings.Join(args, " ")}, "ok", true)
 			detail := map[string]any{"arrangement": j.sp.Arr, "args": args, "err": res.Err, "stderr": tailStr(res.Stderr, 400),
 				"regenerate": fmt.Sprintf("VERIF_SEED=%d ./check C11 (session %s)", r.seed, j.sp.ID)}
 			if res.Outcome != "ok" {
